@@ -837,7 +837,7 @@ class Interp:
                 return
             # Only for values *returned* by distance / density functions: parameter updates assembled from raw moments (E[x^2] - m^2)
             # are translation-invariant by cancellation by design of the sufficient statistics.
-            if decl.sw == 0 and v.sw == "N" and label.startswith("return value"):
+            if decl.sw == 0 and v.sw == "N" and (label.startswith("return value") or label.split(".")[0] in ("Whitening", "WCCN")):
                 self.violation("DIM.TRANSL", node, f"{label} must not depend on a common translation of data and centroids, but it is assembled from terms that each grow with the offset (e.g. ||x||^2 - 2 x.m + ||m||^2) and only cancel numerically: far from the origin the rounding error of the large terms exceeds the true value (wrong nearest centroid, negative 'squared distances'); compute it from differences (x - m)")
             elif decl.sw == 0 and v.sw == 0:
                 self.ok("DIM.TRANSL", node, f"{label}: translation-invariant by construction")
